@@ -552,6 +552,10 @@ class SymInterp(Interp):
             return a % b
         if isinstance(op, ast.Pow) and (isinstance(a, (Dual, Arr)) or isinstance(b, Dual)) and not isinstance(a, (bool, SBool)) and not isinstance(b, (bool, SBool, Arr)):
             return self.np_call("power", [a, b], {})          # x**0.5 is sqrt(x); a symbolic exponent gives the same opaque power as np.power
+        if isinstance(op, (ast.FloorDiv, ast.Mod)) and (isinstance(a, (Dual, Arr)) or isinstance(b, (Dual, Arr))) \
+                and not isinstance(a, (bool, SBool, str)) and not isinstance(b, (bool, SBool)):
+            # floor division / remainder of real numbers: a // b = floor(a / b), a % b = a - b * floor(a / b) (python and numpy agree)
+            return self.np_call("floor_divide" if isinstance(op, ast.FloorDiv) else "mod", [a, b], {})
         if isinstance(op, (ast.BitAnd, ast.BitOr, ast.BitXor)) and (isinstance(a, SBool) or isinstance(b, SBool)):
             if not all(isinstance(x, (bool, SBool)) for x in (a, b)):
                 raise EvalError("bit operation on a condition and a number")
@@ -1368,6 +1372,14 @@ class SymInterp(Interp):
                 return math.log1p(x)
             if name == "pow":
                 return x ** xs[1]
+            if name == "floor":
+                return float(math.floor(x))
+            if name == "ceil":
+                return float(math.ceil(x))
+            if name in ("trunc", "fix"):
+                return float(math.trunc(x))
+            if name == "rint":
+                return float(round(x))
             if name == "norm_inf":
                 return max(abs(t) for t in x)
             if name == "amax":
@@ -1794,6 +1806,24 @@ class SymInterp(Interp):
         n, d = root(r.n), root(r.d)
         return Rat(n, d) if n is not None and d is not None else None
 
+    def s_round(self, kind, v) -> Dual:
+        """floor / ceil / trunc / rint of a scalar: the exact integer for a constant, else the opaque application kind(v) (piecewise constant:
+        no first-order part)"""
+        v = Dual.of(self.num(v)) if not isinstance(v, Dual) else v
+        c = rat_const(v.a)
+        if c is not None:
+            c = Fraction(c)
+            fl = c.numerator // c.denominator
+            if kind == "floor":
+                return Dual(fl)
+            if kind == "ceil":
+                return Dual(-((-c.numerator) // c.denominator))
+            if kind in ("trunc", "fix"):
+                return Dual(fl if c >= 0 else -((-c.numerator) // c.denominator))
+            r = c - fl                                  # rint: to nearest, ties to even
+            return Dual(fl + (1 if (r > Fraction(1, 2) or (r == Fraction(1, 2) and fl % 2)) else 0))
+        return self.fn_atom(kind, [Dual(v.a)])
+
     def s_minmax(self, kind, a, b):
         a, b = Dual.of(self.num(a)), Dual.of(self.num(b))
         d = _A.norm(a.a - b.a)
@@ -1937,6 +1967,26 @@ class SymInterp(Interp):
                         raise
                     return self.fn_atom(fn, [v])
             return self._scalar_or_map(args[0], tf)
+        if fn in ("sinh", "cosh", "tanh") and len(args) == 1 and not kwargs:
+            # hyperbolic functions by their definition through the exponential: (e^x -+ e^-x)/2
+            def hyp(v):
+                ep, em = self.np_call("exp", [v], {}), self.np_call("exp", [-v], {})
+                half = Dual(Fraction(1, 2))
+                return (ep - em) * half if fn == "sinh" else (ep + em) * half if fn == "cosh" else (ep - em) / (ep + em)
+            return self._scalar_or_map(args[0], hyp)
+        if fn in ("floor", "ceil", "trunc", "rint", "fix") and len(args) == 1 and not kwargs:
+            def rnd(v):
+                return self.s_round(fn, v)
+            return self._scalar_or_map(args[0], rnd)
+        if fn in ("floor_divide", "mod", "remainder") and len(args) == 2 and not kwargs:
+            a, b = n(args[0]), n(args[1])
+            if isinstance(a, Arr) or isinstance(b, Arr):
+                shp = broadcast_shape(a.shape if isinstance(a, Arr) else (), b.shape if isinstance(b, Arr) else ())
+                xs = broadcast_data(a.data if isinstance(a, Arr) else [a], a.shape if isinstance(a, Arr) else (), shp)
+                ys = broadcast_data(b.data if isinstance(b, Arr) else [b], b.shape if isinstance(b, Arr) else (), shp)
+                return Arr([self.np_call(fn, [x, y], {}) for x, y in zip(xs, ys)], shp)
+            q = self.s_round("floor", a / b)
+            return q if fn == "floor_divide" else a - b * q
         if fn == "sqrt" and len(args) == 1:
             def sq(v):
                 if rat_const(v.a) == 0 and not rat_is_zero(v.b):
